@@ -211,7 +211,11 @@ func fqDescribeItems(v Val) string {
 var kFastqWrite = register(&Kind{Name: "fastq_write",
 	Project: func(out Val) Val { return L(joinChunks(out.At(0)), out.At(1)) },
 	Impl: func(in Val) Val {
-		f := &fastq.Fastq{Name: in.At(0).Bytes(), Sequence: in.At(1).Bytes(), Quals: in.At(2).Bytes()}
+		n0, s0, q0 := in.At(0).Bytes(), in.At(1).Bytes(), in.At(2).Bytes()
+		// the three fields are carved from one buffer (spare capacity over the neighbours)
+		carved := append(append(append(append([]byte{}, n0...), s0...), q0...), "GUARDguard"...)
+		carved0 := slices.Clone(carved)
+		f := &fastq.Fastq{Name: carved[:len(n0)], Sequence: carved[len(n0) : len(n0)+len(s0)], Quals: carved[len(n0)+len(s0) : len(n0)+len(s0)+len(q0)]}
 		orig := fqRecVal(f.Name, f.Sequence, f.Quals).String()
 		w := &fqChunkRecorder{}
 		if err := f.Write(w); err != nil {
@@ -235,8 +239,8 @@ var kFastqWrite = register(&Kind{Name: "fastq_write",
 				m = vOk(B(b))
 			}
 		}()
-		if fqRecVal(f.Name, f.Sequence, f.Quals).String() != orig {
-			return L(I(3), S("record modified by Write/MarshalText"))
+		if fqRecVal(f.Name, f.Sequence, f.Quals).String() != orig || !bytes.Equal(carved, carved0) {
+			return L(I(3), S("record (or memory next to its fields) modified by Write/MarshalText"))
 		}
 		return L(BL(w.chunks), m)
 	},
